@@ -113,12 +113,17 @@ def published_case(cls, mn, n, d, spec):
     bad = []
 
     def exact_or_hp(kind, ax):
+        """The operator of the mnemonic's definition at angle n*pi/2^d: cos(theta/2) I - i sin(theta/2) sigma
+        evaluated with 60 digits (every d); for d <= 4 it must also coincide with the exact K32 matrix."""
+        hp = qc.rot_nd_hp(ax, n, d) if kind == "rot" else qc.crot_nd_hp(ax, n, d)
         if d <= 4:
             k = spec["hu"][d][n]
             if k < 0:
                 raise RuntimeError("half_units undefined")
+            if qc.maxdiff(hp, spec[kind][ax][k]) > 1e-12:
+                raise RuntimeError(f"exact K32 matrix and 60-digit evaluation disagree at {kind}_{ax} {n} {d}")
             return spec[kind][ax][k], "exact K32 matrix"
-        return (qc.rot_nd_hp(ax, n, d) if kind == "rot" else qc.crot_nd_hp(ax, n, d)), "50-digit evaluation"
+        return hp, "60-digit evaluation"
 
     if mn in spec["fixed"] and mn not in ("cnot", "cphase"):
         ins = cls(reg=q0)
@@ -155,8 +160,11 @@ def check_published(ctx, spec):
     classes = gate_classes((core, vanilla, nv))
     thorough = ctx.tier != "quick"
     ns_small = list(range(256)) if thorough else sorted(set(list(range(0, 40)) + [63, 64, 65, 100, 127, 128, 200, 255]))
-    big_d = [5, 6, 7, 8, 9, 16, 31, 32, 64, 200, 255]
-    ns_big = sorted(set([0, 1, 2, 3, 5, 31, 32, 33, 127, 128, 200, 255] + [ctx.rng.randrange(256) for _ in range(60 if thorough else 10)]))
+    # thorough: EVERY encodable angle (n, d) in 256 x 256 for every rotation class (finite, exhaustive)
+    big_d = list(range(5, 256)) if thorough else [5, 6, 7, 8, 9, 16, 31, 32, 64, 200, 255]
+    ns_big = list(range(256)) if thorough else sorted(set([0, 1, 2, 3, 5, 31, 32, 33, 127, 128, 200, 255] +
+                                                          [ctx.rng.randrange(256) for _ in range(10)]))
+    ctx.coverage["published_matrix_all_256x256_angles"] = bool(thorough)
     n_cmp, stats = 0, {}
     for cname, cls in classes:
         mn = cls.mnemonic
@@ -261,8 +269,9 @@ def run(ctx):
                 "rot_x/y/z at d=0..4 x 12 numerators; CNOT, CPHASE at all 12 electron/carbon placements; MOV both "
                 "directions and with unknown registers) x {simulation, hardware}; each row checked in Coq (exact) and by "
                 "the numpy oracle; rotation pass-through swept exhaustively over 3 x 256 x 256 immediates x 2 modes; "
-                "published matrices compared for every gate class of vanilla/nv at all n (thorough) / 48 n (quick) x d<=4 "
-                "against the exact K32 matrix and for sampled d>4 against a 50-digit evaluation; a case is non-trivial "
+                "published matrices of every gate class of vanilla/nv: thorough = ALL 256 x 256 (n, d) (d<=4 against the exact "
+                "K32 matrix, every d against a 60-digit evaluation of cos/sin of the exact angle), quick = 48 n x d<=4 "
+                "plus sampled d>4; a case is non-trivial "
                 "unless it is a rotation by angle 0; distinct = distinct (kind, gate/class, placement, n, d, mode)")
     jpath = os.path.join(ctx.build, "rows.json")
     ok, err = ctx.gen("nv_decomp.py", "Gen_NvDecomp.v", "--json", jpath)
@@ -272,9 +281,8 @@ def run(ctx):
                        "(electron=0), sweeps all rotation immediates in both hardware settings")
     ctx.trusted.append("harness/qcommon.py: independent numpy definitions of the gates (oracle) and numeric evaluation "
                        "of printed K32 values")
-    ctx.assume.append("the complex numbers with omega = e^{i pi/32} are a commutative ring with omega^32 = -1 and 2 "
-                      "invertible (standard mathematics, not formalised); C07_eval_hom transfers every K32 identity to "
-                      "any such ring")
+    ctx.assume.append("the ring-generic theorems (C07.v) are axiom-free; their instantiation at the complex numbers "
+                      "(C07_complex.v: omega = cos(pi/32) + i sin(pi/32), de Moivre) uses the axioms of Coq's reals")
     ctx.assume.append("noise-free operator semantics; an instruction's meaning is the matrix of its mnemonic's definition "
                       "(exp(-i theta/2 sigma); NV crot = |0><0| (x) R(theta) + |1><1| (x) R(-theta), control = first operand)")
     ctx.assume.append("MOV with operand registers unknown at transpile time is taken as electron -> carbon, as the "
@@ -316,7 +324,7 @@ def run(ctx):
             ctx.distinct.add(("hw", ax, n, d))
     res = ctx.props("C07")
     if res.ok:
-        ctx.coverage["coqc_props_s"] = None
+        qc.complex_props(ctx, "C07_complex")
     else:
         search(ctx, data, rows)
     check_published(ctx, spec)
